@@ -245,6 +245,15 @@ Proof.
   apply F in I. apply Z.ltb_lt in I. unfold max_token. lia.
 Qed.
 
+Lemma dec_last : forall n, last (dec n) 0 <> 13.
+Proof.
+  intro n. pose proof (dec_nonempty n) as NE. pose proof (dec_digits n) as D.
+  destruct (dec n) as [|x l] using rev_ind; [congruence|].
+  rewrite last_last. rewrite Forall_forall in D.
+  assert (is_digit x) by (apply D; rewrite in_app_iff; right; left; reflexivity).
+  unfold is_digit in *. lia.
+Qed.
+
 Section Proofs.
   Variable const : Type.
   Variable const_eqb : const -> const -> bool.
@@ -493,7 +502,7 @@ Section Proofs.
     cbn [length map app read_header_lines].
     rewrite parse_header_line_ok; auto.
     - rewrite (IH rest0 F'). reflexivity.
-    - unfold count in *. lia.
+    - split; [unfold count; apply Nat2Z.is_nonneg | exact H6].
   Qed.
 
   Lemma read_header_ok : forall St rest0,
@@ -502,7 +511,8 @@ Section Proofs.
   Proof.
     intros St rest0 F L. unfold header, read_header. cbn [app].
     rewrite undec_dec by lia.
-    destruct (max_num_preds <? Z.of_nat (length St)) eqn:E; [apply Z.ltb_lt in E; lia|].
+    match goal with |- context [if ?c then _ else _] => destruct c eqn:E end;
+      [apply Z.ltb_lt in E; unfold SimpleColumn.pstore, SimpleColumn.row in *; lia|].
     rewrite Nat2Z.id. apply read_header_lines_ok. exact F.
   Qed.
 
@@ -527,13 +537,8 @@ Section Proofs.
     intros St F L. apply Forall_app. split.
     - unfold header. constructor.
       + unfold line_ok. split; [apply dec_not_in, not_digit_10|]. split.
-        * pose proof (dec_nonempty (Z.of_nat (length St))) as NE.
-          pose proof (dec_digits (Z.of_nat (length St))) as D.
-          destruct (dec (Z.of_nat (length St))) as [|x l] using rev_ind; [congruence|].
-          rewrite last_last. rewrite Forall_forall in D.
-          assert (is_digit x) by (apply D; rewrite in_app_iff; right; left; reflexivity).
-          unfold is_digit in *. lia.
-        * apply dec_small_length. lia.
+        * apply dec_last.
+        * apply dec_small_length. unfold SimpleColumn.pstore, SimpleColumn.row in *. lia.
       + apply Forall_forall. intros l Hl. apply in_map_iff in Hl. destruct Hl as [e [<- He]].
         rewrite Forall_forall in F. destruct (F e He) as (_ & _ & H3 & H4 & _).
         destruct (header_line_ok_shape (fst e) (count const (snd e)) H3) as [A B].
@@ -551,7 +556,8 @@ Section Proofs.
     write const print fhash fixed false St = Some (header const St ++ body_lines St).
   Proof.
     intros St F L. unfold write.
-    destruct (max_num_preds <? Z.of_nat (length St)) eqn:E; [apply Z.ltb_lt in E; lia|].
+    match goal with |- context [if ?c then _ else _] => destruct c eqn:E end;
+      [apply Z.ltb_lt in E; unfold SimpleColumn.pstore, SimpleColumn.row in *; lia|].
     cbn [ordered].
     assert (C : forallb (fun e : psym * list (SimpleColumn.row const) =>
                            (Z.of_nat (snd (fst e)) <=? max_arity) && (count const (snd e) <=? max_facts)) St = true).
